@@ -17,7 +17,6 @@ TOP_LEVEL = {
     f'{DE}:DeleteSubmissionTask._submit': 'submission body',
     # bodies handed to botocore / progress callbacks invoked through the external progress_cb interface
     f'{UT}:ReadFileChunk.read': 'called by botocore', f'{UT}:ReadFileChunk.seek': 'called by botocore',
-    f'{UT}:ReadFileChunk.enable_callback': 'called by botocore handlers', f'{UT}:ReadFileChunk.disable_callback': 'called by botocore handlers',
     f'{UP}:AggregatedProgressCallback.__call__': 'progress callback', f'{UP}:AggregatedProgressCallback.flush': 'close callback',
     f'{BW}:BandwidthLimitedStream.read': 'called by botocore / the chunk reader through the file interface',
     # public API
@@ -42,6 +41,8 @@ def register(R):
     setm(f'{BW}:BandwidthLimitedStream._consume_through_leaky_bucket', lambda c: [('f', c.self, '_bytes_seen')])
     setm(f'{PP}:ProcessPoolDownloader._shutdown', lambda c: [('f', c.self, '_started')])
     setm(f'{MG}:TransferManager._submit_transfer', lambda c: [('f', c.self, '_id_counter')])
+    setm(f'{UT}:ReadFileChunk.enable_callback', lambda c: [('f', c.self, '_callbacks_enabled')])
+    setm(f'{UT}:ReadFileChunk.disable_callback', lambda c: [('f', c.self, '_callbacks_enabled')])
     # path downloads append their rename handler to the request's before-list
     setm(f'{CRT}:S3ClientArgsCreator._get_make_request_args_get_object', lambda c: [('i', c.a_on_done_before_calls)])
 
